@@ -30,6 +30,15 @@ def corpus():
         mk(["D0", "G:" + hexs(b"ACK [5@0] {} nope\n"), "c1:" + e("a"), "t200", "e", "t200"], "ack", "server answers idle with an error", {1: ("c", [e("a")])}),
         mk(["D0", "c1:" + e("a"), "G:" + hexs(b"foo\n"), "c2:" + e("b"), "t200", "e", "t200"], "invalid", "malformed reply to noidle", {1: ("c", [e("a")]), 2: ("c", [e("b")])}),
         mk(["D0", "c1:" + e("a"), "S*", "D0", "S*", "G:" + hexs(b"foo\n"), "c2:" + e("b"), "c3:" + e("c"), "t50", "t200", "c4:" + e("d"), "t200", "t200"], "invalid", "malformed reply to the request: queued and later requests still resolve, no end of stream needed", {1: ("c", [e("a")]), 2: ("c", [e("b")]), 3: ("c", [e("c")]), 4: ("c", [e("d")])}),
+    ] + [
+        # a long history of events the application has not read yet, then the failure while idle: the closing event is not one that
+        # may be dropped for lack of room
+        mk(["D0", "S*", "q"] + sum([["N:" + hexs(L.SUBSYSTEMS[i % 14]), "D0", "S*"] for i in range(n)], []) + fault + ["Q", "t200", "t200"], kind,
+           f"{n} unread events, then {note}", {})
+        for n in (10, 127, 128, 129, 300)
+        for fault, kind, note in ((["G:" + hexs(b"what\n")], "invalid", "malformed data while idle"),
+                                  (["N:" + hexs("player"), "D9", "e"], "cut", "the stream is cut inside an idle reply"),
+                                  (["r2"], "r", "reads fail while idle"))
     ]
 
 
